@@ -123,6 +123,11 @@ def gen_spec(rng, fmt='NETCDF4', big=0.0):
             else:
                 for d in dims:
                     d[2] = False
+    if rng.random() < 0.3:
+        # declaration order is the file's, not the variables': the record
+        # dimension need not be the first one declared (only the leading one
+        # of each variable that uses it)
+        rng.shuffle(dims)
     return {'dims': dims, 'attrs': attrs, 'vars': vars_}
 
 
@@ -215,6 +220,32 @@ def build_source(spec):
     return f
 
 
+def lazy_source(base, fault_at):
+    """the same content presented the way the disk readers present theirs:
+    variables produced by a loader on every request; request number fault_at
+    fails once with EIO"""
+    import PseudoNetCDF as pnc
+    from PseudoNetCDF.core._files import PseudoNetCDFVariables
+    lz = pnc.PseudoNetCDFFile()
+    for dk, dv in base.dimensions.items():
+        d = lz.createDimension(dk, len(dv))
+        if dv.isunlimited():
+            d.setunlimited(True)
+    for k in base.ncattrs():
+        setattr(lz, k, getattr(base, k))
+    state = {'n': 0, 'fired': 0}
+
+    def load(k):
+        i = state['n']
+        state['n'] += 1
+        if fault_at is not None and i == fault_at:
+            state['fired'] += 1
+            raise IOError(5, 'injected read fault (request %d: %s)' % (i, k))
+        return base.variables[k]
+    lz.variables = PseudoNetCDFVariables(load, list(base.variables.keys()))
+    return lz, state
+
+
 # ---------------------------------------------------------------------------
 class State(object):
     def __init__(self, world, config):
@@ -274,7 +305,10 @@ def gen_op(rng, st):
                 'complevel': cl, 'file': 's%d.nc' % cid,
                 # the file handed to save(): the in-memory file itself, or the same
                 # content as a disk-backed file (written, closed, reopened)
-                'source': rng.choice(['mem', 'mem', 'mem', 'disk'])})
+                'source': rng.choice(['mem', 'mem', 'mem', 'disk', 'lazy']),
+                # lazily loaded sources: the n-th variable request fails once with
+                # an I/O error (None / beyond the last request: no fault)
+                'fault_at': rng.choice([None, rng.randrange(0, 14)])})
     ops.append({'op': 'read', 'cid': cid, 'which': 'ack',
                 'how': rng.choice(['explicit', 'explicit', 'auto'])})
     sched = rng.choice(SCHEDULES)
@@ -459,13 +493,34 @@ def apply(st, op):
                 w.probe('source_is_disk_backed')
             except BaseException as e:
                 raise HarnessError('cannot make the disk-backed source: %r' % (e,))
+        lazy = None
+        if op.get('source') == 'lazy':
+            f, lazy = lazy_source(f, op.get('fault_at'))
+            w.probe('source_is_lazily_loaded')
         st.stats['saves'] += 1
         st.stats['by_flavour'][op['fmt']] = st.stats['by_flavour'].get(op['fmt'], 0) + 1
         st.stats['masked_vars'] += sum(1 for v in op['spec']['vars'] if v.get('mask') is not None)
         if op['complevel']:
             st.stats['compressed'] += 1
         try:
-            h = f.save(path, format=op['fmt'], complevel=op['complevel'], verbose=0)
+            try:
+                h = f.save(path, format=op['fmt'], complevel=op['complevel'], verbose=0)
+                if lazy is not None and lazy['fired']:
+                    # the fault was not reported: the save is acknowledged and is
+                    # judged like any other acknowledged save
+                    w.fault('read_fault_during_save_unreported')
+                    st.stats['faults_unreported'] = st.stats.get('faults_unreported', 0) + 1
+            except BaseException as e:
+                if lazy is None or not lazy['fired']:
+                    raise
+                # an injected read fault was reported to the caller: nothing was
+                # acknowledged.  The caller retries (fault gone) to a new path.
+                w.fault('read_fault_during_save_reported')
+                st.stats['faults_reported'] = st.stats.get('faults_reported', 0) + 1
+                obs['fault'] = 'reported %s' % type(e).__name__
+                seams.GC.collect(2)
+                path = w.path('retry_' + op['file'])
+                h = f.save(path, format=op['fmt'], complevel=op['complevel'], verbose=0)
         except BaseException as e:
             k = '%s:%s' % (op['fmt'], type(e).__name__)
             st.stats['save_raised'][k] = st.stats['save_raised'].get(k, 0) + 1
